@@ -38,5 +38,8 @@ PagesOk(c) == /\ c.ended = 1 /\ Len(c.pages) >= 1 /\ c.pages[1].off = 0
 \* ---- (b)
 JsonOk(c) == c.ok = 1                                            \* json.dumps(dataclasses.asdict(result)) succeeded and loads back equal
 InverseOk(c) == c.out = "ok" /\ c.same = 1                       \* decode(encode(decode(p))) = decode(p) in JSON form
-CaseOk(c) == CASE c.t = "pages" -> PagesOk(c) [] c.t = "json" -> JsonOk(c) [] c.t = "inv" -> InverseOk(c) [] OTHER -> FALSE
+\* two filters given together select what each of them selects, in catalogue order: both / a / b = positions (in the unfiltered listing)
+\* of the entries listed with both filters / with the main number only / with the text only
+ConjOk(c) == LET inB == {c.b[k] : k \in 1..Len(c.b)} IN c.both = SelectSeq(c.a, LAMBDA x : x \in inB)
+CaseOk(c) == CASE c.t = "pages" -> PagesOk(c) [] c.t = "json" -> JsonOk(c) [] c.t = "inv" -> InverseOk(c) [] c.t = "conj" -> ConjOk(c) [] OTHER -> FALSE
 =============================================================================
